@@ -646,7 +646,6 @@ func (r *Runner) Run() (err error) {
 			}
 			reloadManager.clearPendingRetirement()
 			reloadManager.setPendingReloadMetadata(reloadStartedAt, reloadStartedAtMono)
-			reloadManager.beginHandoff()
 
 			// Ready to close.
 			if oldC != nil && reloadManager.currentPendingStagedHandoff() == nil {
@@ -657,6 +656,10 @@ func (r *Runner) Run() (err error) {
 				}
 				reloadManager.startControlPlaneRetirement(log, oldC, newC, oldCancel, abortConnections, hasOverlap)
 			}
+			// Hand off to the main loop only after the retirement of the previous generation is
+			// registered: otherwise finishReloadSuccess can run first, find no pending retirement
+			// and release the reload token while the old generation is still retiring.
+			reloadManager.beginHandoff()
 
 			reloadManager.refreshPprofServer(log, &pprofServer, newConf.Global.PprofPort)
 
